@@ -96,7 +96,10 @@ fn smx_image(rng: &mut StdRng, shape: &Value, hostile: &Value) -> Vec<u8> {
     let mut b = b"LFSSMX".to_vec();
     b.extend_from_slice(&[0, 6, 0, 2, 1, 1]);
     b.extend_from_slice(&[0, 0, 0, 0]);
-    let mut track = b"Blackwood".to_vec();
+    // the track name: empty, short, one byte short of the field, or filling all 32 bytes (no terminator)
+    let full = b"Westhill International Reversed!";
+    let tlen = [9usize, 0, 31, 32, 1, 32][rng.gen_range(0..6)];
+    let mut track = full[..tlen].to_vec();
     track.resize(32, 0);
     b.extend(track);
     b.extend_from_slice(&[10, 20, 30]);
